@@ -333,10 +333,16 @@ type Conn struct {
 	lastClientMsgID int64
 }
 
+// Close closes the connection in an orderly way: the sending direction is shut down (the client reads end-of-stream),
+// the server keeps reading until the client closes its side. An abortive close (RST) is not what a scenario calls "close".
 func (c *Conn) Close() {
 	c.wmu.Lock()
 	c.closed = true
 	c.wmu.Unlock()
+	if tc, ok := c.c.(*net.TCPConn); ok {
+		tc.CloseWrite()
+		return
+	}
 	c.c.Close()
 }
 
